@@ -262,6 +262,8 @@ func runSCIONServer(ctx context.Context, log *slog.Logger, mtrcs *scionServerMet
 			}
 			buffer.PushLayer(udpLayer.LayerType())
 
+			hasE2E := len(decoded) >= 3 &&
+				decoded[len(decoded)-2] == slayers.LayerTypeEndToEndExtn
 			if len(oob) != 0 {
 				tsOpt.OptType = scion.OptTypeTimestamp
 				tsOpt.OptData = oob
@@ -270,15 +272,19 @@ func runSCIONServer(ctx context.Context, log *slog.Logger, mtrcs *scionServerMet
 				tsOpt.OptDataLen = 0
 				tsOpt.ActualLength = 0
 
-				if scionLayer.NextHdr != slayers.End2EndClass {
+				if !hasE2E {
 					e2eLayer = slayers.EndToEndExtn{}
 					e2eLayer.NextHdr = slayers.L4UDP
-					scionLayer.NextHdr = slayers.End2EndClass
+					hasE2E = true
 				}
 				e2eLayer.Options = append(e2eLayer.Options, tsOpt)
 			}
 
-			if scionLayer.NextHdr == slayers.End2EndClass {
+			// A hop-by-hop extension header has done its job at the last hop and
+			// is not forwarded; the end-to-end header, which may follow it, is.
+			scionLayer.NextHdr = slayers.L4UDP
+			if hasE2E {
+				scionLayer.NextHdr = slayers.End2EndClass
 				err = e2eLayer.SerializeTo(buffer, options)
 				if err != nil {
 					log.LogAttrs(ctx, slog.LevelInfo, "failed to encode packet", slog.Any("error", err))
